@@ -31,9 +31,9 @@ SHARDS = {"quick": 9, "thorough": 18}
 TIMEOUT_S = {"quick": 600, "thorough": 3000}
 BUDGET_S = {"quick": 120, "thorough": 1500}
 TZS = ["UTC", "America/Los_Angeles", "Asia/Kolkata"]
-RULE = ("messages: every template (quick 3, thorough 8 per template per zone), XML-legal text and finite floats, "
+RULE = ("messages: every template (quick 3, thorough 24 per template per zone), XML-legal text and finite floats, "
         "through the dict form and the XML form, both as built and as decoded from the wire; LLSD trees to depth 4 "
-        "(quick 9 x 3000, thorough 18 x 12000) with all scalar types, awkward strings, uris, binaries, naive/aware dates, "
+        "(quick 9 x 3000, thorough 18 x 40000) with all scalar types, awkward strings, uris, binaries, naive/aware dates, "
         "vector types, through binary (+/- header), zipped, notation and XML. distinct_nontrivial = distinct (codec, tree "
         "shape) pairs and distinct (message, block-count vector) pairs that round-tripped")
 ASSUMPTIONS = [
@@ -404,7 +404,7 @@ def run(ctx):
     ctx.cover("tz", tz)
     rng = ctx.rng
     # trees
-    n_trees = ctx.pick(3000, 12000)
+    n_trees = ctx.pick(3000, 40000)
     for i in range(n_trees):
         if ctx.out_of_time():
             break
@@ -418,7 +418,7 @@ def run(ctx):
         check_tree(ctx, v, "directed")
     # messages: every template, split over the shard groups (all three zones see every template in thorough)
     templates = gen_msg.all_templates()
-    per_template = ctx.pick(3, 8)
+    per_template = ctx.pick(3, 24)
     groups = max(1, ctx.nshards // len(TZS))
     gi = ctx.shard // len(TZS)
     for ti, tmpl in enumerate(templates):
